@@ -501,6 +501,7 @@ class AwareASTNode(DataClassSerializeMixin):
         self,
         operation: t.Literal["create", "attach", "replace"],
         seen: dict[str, AwareASTNode] | None = None,
+        adopted: dict[int, AwareASTNode] | None = None,
     ) -> tuple[AwareASTNode, AwareASTNode] | None:
         """Checks whether `_attach_inner` would succeed, without changing anything.
 
@@ -515,6 +516,9 @@ class AwareASTNode(DataClassSerializeMixin):
         if seen is None:
             seen = {}
 
+        if adopted is None:
+            adopted = {}
+
         # The id must be free in the registry and unique among the nodes that will be attached
         existing_node = AwareASTNode._nodes.get(self.id, seen.get(self.id))
         if existing_node is not None:
@@ -528,11 +532,20 @@ class AwareASTNode(DataClassSerializeMixin):
 
         for c in self.get_child_nodes():
             if c.detached:
-                if (ret := c._find_attach_collision(operation=operation, seen=seen)) is not None:
+                if (
+                    ret := c._find_attach_collision(
+                        operation=operation, seen=seen, adopted=adopted
+                    )
+                ) is not None:
                     return ret
             elif not c.is_attached_root:
                 assert c.parent is not None
                 return (c, c.parent)
+            elif id(c) in adopted:
+                # An attached root can get only one of the nodes being attached as its parent
+                return (c, adopted[id(c)])
+            else:
+                adopted[id(c)] = self
 
         return None
 
